@@ -748,7 +748,7 @@ func ruleConvFormulas(c *Ctx, prop string) {
 		key := "R11:K8:formula:" + w.fn
 		var f *ssa.Function
 		for _, g := range c.libFns {
-			if recvNamed(g) == oi.named && g.Parent() == nil && g.Name() == w.fn {
+			if recvNamed(g) == oi.named && g.Parent() == nil && convRole(g) == w.fn {
 				f = g
 			}
 		}
@@ -930,6 +930,15 @@ func ruleSoftmaxKernel(c *Ctx, prop string) {
 							continue
 						}
 						x, y := a.x, a.y
+						// any spelling of axis != len(shape)-1: the difference of the two sides is +-(axis - len + 1)
+						if lx, ok1 := c.linAxisLen(x, A, 0); ok1 {
+							if ly, ok2 := c.linAxisLen(y, A, 0); ok2 {
+								d := [3]int64{lx[0] - ly[0], lx[1] - ly[1], lx[2] - ly[2]}
+								if d == [3]int64{1, -1, 1} || d == [3]int64{-1, 1, -1} {
+									notLast = true
+								}
+							}
+						}
 						if y == A {
 							x, y = y, x
 						}
@@ -1090,7 +1099,12 @@ func ruleErrorsConsumed(c *Ctx, prop string) {
 					continue
 				}
 				key := fmt.Sprintf("R28:error-dropped:%s:%s#%d", fname(f), callName(call), per[fname(f)])
-				if why, ok := errorDropAudited[key]; ok && c.blankDiscard(f, call, errResultIndex(sig)) {
+				auditKey := key
+				if strings.HasPrefix(key, "R28:error-dropped:opset13.gather") {
+					// the audited discards belong to the element routine of Gather, whatever its pieces are called
+					auditKey = "R28:error-dropped:opset13.gather" + key[strings.LastIndex(key, ":"):]
+				}
+				if why, ok := errorDropAudited[auditKey]; ok && c.blankDiscard(f, call, errResultIndex(sig)) {
 					c.discharge("R28", key, c.pos(call.Pos()), "audited blank discard: "+why)
 					continue
 				}
@@ -1642,6 +1656,49 @@ func ruleGather(c *Ctx, prop string) {
 	bad := ""
 	var assign *ssa.Call
 	nAxisSl, nShift := 0, 0
+	// the per-index block may live in a helper of the element routine that receives (output, data, axis) from it
+	pOut, pData, pAxis := "P0", "P1", "P3"
+	hasSlicer := func(f *ssa.Function) bool {
+		for _, b := range f.Blocks {
+			for _, in := range b.Instrs {
+				if cl, ok := in.(*ssa.Call); ok {
+					if sc := cl.Common().StaticCallee(); sc != nil && sc.Name() == "NewSlicer" {
+						return true
+					}
+				}
+			}
+		}
+		return false
+	}
+	if !hasSlicer(g) && len(g.Params) >= 4 {
+		for _, b := range g.Blocks {
+			for _, in := range b.Instrs {
+				cl, ok := in.(*ssa.Call)
+				if !ok {
+					continue
+				}
+				sc := cl.Common().StaticCallee()
+				if sc == nil || !isLibFn(sc) || len(sc.Blocks) == 0 || !hasSlicer(sc) {
+					continue
+				}
+				io, id, ia := -1, -1, -1
+				for i, a := range cl.Common().Args {
+					switch a {
+					case ssa.Value(g.Params[0]):
+						io = i
+					case ssa.Value(g.Params[1]):
+						id = i
+					case ssa.Value(g.Params[3]):
+						ia = i
+					}
+				}
+				if io >= 0 && id >= 0 && ia >= 0 {
+					g = sc
+					pOut, pData, pAxis = fmt.Sprintf("P%d", io), fmt.Sprintf("P%d", id), fmt.Sprintf("P%d", ia)
+				}
+			}
+		}
+	}
 	for _, b := range g.Blocks {
 		for _, in := range b.Instrs {
 			switch x := in.(type) {
@@ -1656,9 +1713,9 @@ func ruleGather(c *Ctx, prop string) {
 				}
 				it := c.term(ia.Index, 0)
 				switch {
-				case it == "P3":
+				case it == pAxis:
 					nAxisSl++
-				case strings.Contains(it, "P3") && strings.Contains(it, "+"):
+				case strings.Contains(it, pAxis) && strings.Contains(it, "+"):
 					nShift++
 				default:
 					bad = "a slicer is placed at position " + it + ": neither the gather axis nor an index coordinate shifted by the axis"
@@ -1678,7 +1735,7 @@ func ruleGather(c *Ctx, prop string) {
 			bad = "the selected block is not assigned into the output with ops.PairwiseAssign"
 		} else {
 			d, s := c.term(assign.Common().Args[0], 0), c.term(assign.Common().Args[1], 0)
-			if !strings.HasPrefix(d, "Slice(P0,") || !strings.HasPrefix(s, "Slice(P1,") {
+			if !strings.HasPrefix(d, "Slice("+pOut+",") || !strings.HasPrefix(s, "Slice("+pData+",") {
 				bad = "the block assignment is not output[coords] <- data[k]: it assigns " + d + " <- " + s
 			}
 		}
@@ -1798,4 +1855,39 @@ func ruleSizeQuirks(c *Ctx, prop string) {
 	c.add(Obligation{Rule: "R32", Key: "R32:ctl:bad:BadDataSize", Status: ctl, Control: true, Why: "control: DataSize() in size arithmetic"})
 	c.wantControls = append(c.wantControls, "R32:ctl:bad:BadDataSize")
 	c.discharge("R32", "R32:datasize:scan", "", fmt.Sprintf("%d functions behind this property scanned for DataSize() (positive control reported)", len(fns)-len(c.ctlFns)))
+}
+
+// linAxisLen writes v as a*A + l*len(shape) + k for the axis value A, the length of a tensor's shape and
+// integer constants combined with + and -.
+func (c *Ctx) linAxisLen(v, A ssa.Value, depth int) ([3]int64, bool) {
+	if depth > 6 {
+		return [3]int64{}, false
+	}
+	v = stripConv(v)
+	if v == A || stripConv(A) == v {
+		return [3]int64{1, 0, 0}, true
+	}
+	if k, ok := constInt(v); ok {
+		return [3]int64{0, 0, k}, true
+	}
+	switch x := v.(type) {
+	case *ssa.Call:
+		if bi, ok := x.Common().Value.(*ssa.Builtin); ok && bi.Name() == "len" && strings.Contains(c.term(x.Common().Args[0], 0), "Shape(") {
+			return [3]int64{0, 1, 0}, true
+		}
+	case *ssa.BinOp:
+		if x.Op != token.ADD && x.Op != token.SUB {
+			return [3]int64{}, false
+		}
+		l, ok1 := c.linAxisLen(x.X, A, depth+1)
+		r, ok2 := c.linAxisLen(x.Y, A, depth+1)
+		if !ok1 || !ok2 {
+			return [3]int64{}, false
+		}
+		if x.Op == token.ADD {
+			return [3]int64{l[0] + r[0], l[1] + r[1], l[2] + r[2]}, true
+		}
+		return [3]int64{l[0] - r[0], l[1] - r[1], l[2] - r[2]}, true
+	}
+	return [3]int64{}, false
 }
